@@ -10,6 +10,7 @@ is the Python function itself, executed.
 from __future__ import annotations
 
 import importlib
+import importlib.util
 import itertools
 import math
 import os
@@ -47,7 +48,7 @@ def gen_cases(tier: str, seed: int) -> list[dict]:
     return [{"seed": f"{seed}:C06:{i}", "i": i} for i in range(n)]
 
 
-def _write_modules(case: dict, rng) -> tuple[object, list[dict], str]:  # noqa: ANN001
+def _write_modules(case: dict, rng, *, redefinition: bool = False) -> tuple[object, list[dict], str]:  # noqa: ANN001
     root = os.path.join(os.environ.get("VERIF_WORKDIR", "/tmp"), "c06pkg")  # noqa: S108
     os.makedirs(root, exist_ok=True)
     if root not in sys.path:
@@ -58,6 +59,16 @@ def _write_modules(case: dict, rng) -> tuple[object, list[dict], str]:  # noqa: 
     with open(os.path.join(root, helper + ".py"), "w") as fh:
         fh.write(HELPER_SRC.format(helper=helper))
     src, meta = Gen(rng, helper).module(6)
+    if redefinition:
+        path = os.path.join(root, modname + "_again.py")
+        with open(path, "w") as fh:
+            fh.write(src)
+        spec = importlib.util.spec_from_file_location(modname, path)
+        mod = importlib.util.module_from_spec(spec)
+        sys.modules[modname] = mod
+        spec.loader.exec_module(mod)
+        return mod, meta, src
+    sys.modules.pop(modname, None)
     with open(os.path.join(root, modname + ".py"), "w") as fh:
         fh.write(src)
     importlib.invalidate_caches()
@@ -182,7 +193,26 @@ def run_case(case: dict) -> dict:
     # second pass: the module-level constant the functions read is re-bound (as when a script cell is re-run) and the
     # functions reading it are translated again in the same process; the translation must follow the function
     second = [dict(fm, second_pass=True) for fm in meta if "module_constant" in fm["features"]]
-    for fm in [*meta, *second]:
+    redefine = rng.random() < 0.5
+    rng2 = core.rng_for(case["seed"] + ":again")
+
+    def work():  # noqa: ANN202
+        for fm in [*meta, *second]:
+            yield mod0, twin0, fm
+        if redefine:
+            # third pass: the module is defined again (a script or notebook cell run again after editing it): the same module
+            # name and the same function names, other bodies and parameter lists; translated in the same process
+            mod2, meta2, src2 = _write_modules(case, rng2, redefinition=True)
+            mod2.C1 = 1.25
+            twin2 = instrumented_twin(src2, mod2.__name__)
+            counters["modules_defined_again_under_the_same_name"] = 1
+            for fm in meta2:
+                yield mod2, twin2, dict(fm, redefined=True)
+
+    mod0, twin0 = mod, twin
+    for mod, twin, fm in work():
+        if fm.get("redefined"):
+            counters["functions_translated_after_redefinition_under_the_same_qualified_name"] = counters.get("functions_translated_after_redefinition_under_the_same_qualified_name", 0) + 1
         if fm.get("second_pass") and not counters.get("module_constant_rebound"):
             mod.C1 = twin["C1"] = 2.75
             counters["module_constant_rebound"] = 1
@@ -228,7 +258,7 @@ def run_case(case: dict) -> dict:
                 sigs.append(core.sha([fm["source"], rname]))
             if bad:
                 shape = [x for x in fm["features"] if x.startswith("shape:")][0][6:]
-                cls = ("after re-binding a module constant;" if fm.get("second_pass") else "") + f"shape={shape}" + (";eq_ne" if "eq_ne" in fm["features"] else "") + (";nested_call" if "nested_call" in fm["features"] else "") + (
+                cls = ("after re-binding a module constant;" if fm.get("second_pass") else "") + ("after the module was defined again;" if fm.get("redefined") else "") + f"shape={shape}" + (";eq_ne" if "eq_ne" in fm["features"] else "") + (";nested_call" if "nested_call" in fm["features"] else "") + (
                     ";own-name renaming" if rname in ("swap", "rotate", "shift") else "")
                 viols.append(core.viol(f"translated expression differs from the function [{cls}]", mech(fm, rname, bad), function=fm["source"], renaming=rname, model_args=margs,
                                        expression=str(e)[:400], features=fm["features"], **bad))
